@@ -1,2 +1,71 @@
-(* statements land with the deep pass; see Proofs *)
-Require Import Model.Base.
+(* C10 — after set_orientation the display behaves as if built with that orientation. Statements only;
+   proofs in Proofs/OrientStateP.v. Model of the tree after the fix: commit for F1 (set_orientation
+   stores the new orientation, after the controller accepted it). *)
+Require Import Model.Base Model.Orient Model.Dcs Model.Events Model.Builder Model.Rect Model.Batch Model.Display.
+Require Import Oracle.Controller Proofs.DcsP Proofs.OrientStateP.
+
+(* Builder::init leaves exactly `fresh_state o` when Model::init returns SetAddressMode::from(options)
+   (which every generated built-in model does: C11) *)
+Theorem C10_init_state : forall md FW FH rst o t st,
+  builder_init md FW FH rst o (t, Ok (madctl_of_opts o)) = (reset_events rst ++ t, Ok st) -> st = fresh_state o.
+Proof. exact builder_init_state. Qed.
+
+(* one call: exactly one command 0x36 whose parameter keeps every bit but the three orientation bits;
+   options and cached MADCTL are updated, the sleep flag is not touched *)
+Theorem C10_step : forall c st x,
+  step c st (PSetOrient x) =
+  ([ECmd 0x36 [with_orientation (d_madctl st) x]], ROk,
+   {| d_opts := set_orient (d_opts st) x; d_madctl := with_orientation (d_madctl st) x; d_sleeping := d_sleeping st |}).
+Proof. exact step_set_orient. Qed.
+
+(* colour-order and refresh-order bits are preserved across the change: the new byte is the encoding of
+   the same options with only the orientation replaced *)
+Theorem C10_bits_preserved : forall o x,
+  with_orientation (madctl_of_opts o) x = madctl_of_opts (set_orient o x).
+Proof. exact with_orientation_of_opts. Qed.
+
+(* any finite sequence of orientations applied to a display built with any options: every call returns
+   Ok and sends the encoding for that orientation; afterwards the driver state IS the state of a display
+   freshly built with the last orientation and otherwise identical options *)
+Theorem C10_sequence : forall c os st, madctl_ok st ->
+  let o := d_opts st in
+  let lasto := last os (o_orient o) in
+  exec c st (map PSetOrient os) =
+  (map (fun x => ([ECmd 0x36 [madctl_of_opts (set_orient o x)]], ROk)) os,
+   match os with
+   | [] => st
+   | _ => {| d_opts := set_orient o lasto; d_madctl := madctl_of_opts (set_orient o lasto); d_sleeping := d_sleeping st |}
+   end).
+Proof. exact exec_orients. Qed.
+
+Theorem C10_state_is_fresh : forall c os o, os <> [] ->
+  snd (exec c (fresh_state o) (map PSetOrient os)) = fresh_state (set_orient o (last os (o_orient o))).
+Proof. exact exec_orients_fresh. Qed.
+
+(* reported orientation, reported size (hence bounding box) and cached address mode of that state *)
+Theorem C10_reports : forall o x,
+  o_orient (d_opts (fresh_state (set_orient o x))) = x /\
+  lsize (d_opts (fresh_state (set_orient o x))) = (if is_horizontal (rotn x) then (o_w o, o_h o) else (o_h o, o_w o)) /\
+  d_madctl (fresh_state (set_orient o x)) = madctl_new (o_bgr o) x (o_btt o) (o_rtl o).
+Proof. exact fresh_state_reports. Qed.
+
+(* the address mode held by the controller is the cached one *)
+Theorem C10_controller : forall c os st k, madctl_ok st -> k_page k = false -> os <> [] ->
+  let k' := ctl_run k (exec_trace c st (map PSetOrient os)) in
+  k_madctl k' = d_madctl (snd (exec c st (map PSetOrient os))) /\ k_page k' = false.
+Proof. exact ctl_after_orients. Qed.
+
+(* ... therefore ANY subsequent program (drawing in and out of bounds, scrolling, sleep, ...) produces the
+   same results, the same bus traffic and the same final state on both displays *)
+Theorem C10_behaviour : forall c os o p, os <> [] ->
+  exec c (snd (exec c (fresh_state o) (map PSetOrient os))) p =
+  exec c (fresh_state (set_orient o (last os (o_orient o)))) p.
+Proof. exact exec_after_orients. Qed.
+
+Example C10_ex :
+  let o := {| o_bgr := true; o_orient := {| rotn := D0; mir := false |}; o_inv := false; o_btt := true; o_rtl := false;
+              o_w := 100; o_h := 50; o_ox := 3; o_oy := 7 |} in
+  let c := {| c_md := Debug; c_batch := true; c_fw := 240; c_fh := 320; c_enc := fun v => [v]; c_rowcap := 50; c_blockcap := 100 |} in
+  let st := snd (exec c (fresh_state o) [PSetOrient {| rotn := D180; mir := true |}; PSetOrient {| rotn := D90; mir := false |}]) in
+  lsize (d_opts st) = (50, 100) /\ d_madctl st = 0x78 /\ madctl_ok (fresh_state o).
+Proof. vm_compute. auto. Qed.
